@@ -547,6 +547,15 @@ theorem nested_conversion_paths_match_code :
     handlerERC20Token_usesKeeperLevelEVM = false := by
   decide
 
+open FxVerif.Gen.C08b in
+/-- **what `executeClaim` converts through** (the `e<n>` step of the mixed transactions is a keeper-level nested `mint`):
+`ExecuteClaim` hands a parked deposit to `SendToFxExecuted` / `BridgeCallHandler`; `SendToFxExecuted` with target `erc20`
+and `BridgeCallEvm` credit ERC-20 through `BaseCoinToEvm`, which is the erc20 keeper's `ConvertCoin` — read from the AST -/
+theorem executeClaim_conversion_path_matches_code :
+    executeClaim_dispatchesDeposits = true ∧ sendToFxExecuted_erc20Target_usesBaseCoinToEvm = true ∧
+    bridgeCallEvm_usesBaseCoinToEvm = true ∧ baseCoinToEvm_usesKeeperConvertCoin = true := by
+  decide
+
 /-! ### I_index, inductively (unified model: every message of the erc20 module, any order, any arguments) -/
 
 open FxVerif.Proofs.C08 in
